@@ -104,6 +104,10 @@ def main(argv):
         from . import mutants
 
         return mutants.main(argv[1:])
+    elif cmd == "selftest-benign":
+        from . import mutants
+
+        return mutants.main_benign(argv[1:])
     else:
         print("unknown selftest", cmd)
         return 2
